@@ -210,6 +210,7 @@ def check_mean_prediction(case):
 # ---- strategies --------------------------------------------------------------------------------
 
 _weights = st.one_of(
+    st.sampled_from([1e-10, 3e-10, 2.5e-9]),
     st.integers(1, 4).map(float),
     st.sampled_from([0.25, 0.5, 1.5, 2.0, 3.0, 10.0]),
     st.floats(0.01, 100, allow_nan=False),
